@@ -20,7 +20,7 @@ META = {
             "mangle_no_sep / mangle_no_sep_fields (escaped text contains no byte of the escape set other than backslash and octal digits: no blank, tab, newline, and in option values no ',' '='); "
             "overlay_opts_recovered (for every super-option list - any order, foreign options, repeated keys, any value bytes - parseOverlayOpts of the rendered text yields the last lowerdir/upperdir/workdir); "
             "probeLine_render (for every well-formed mount and every parser state, reading the rendered line appends exactly the expected entry, updates device table and shadow set; 0..n optional fields, arbitrary bytes in root/mountpoint/source/overlay dirs); "
-            "probe_render (whole table: probeMounts(render t) = ok with list = entries t, in order - each entry with the mount id and parent id of its line, which ProbeMounts keeps since fix 05db66c -, and the expected device table; uses scanLines_render: the line scanner returns exactly the rendered lines); "
+            "probe_render (whole table: probeMounts(render t) = ok with list = entries t, in order - each entry with the mount id and parent id of its line, which ProbeMounts keeps since fix e546b99 -, and the expected device table; uses scanLines_render: the line scanner returns exactly the rendered lines); "
             "entries_inShadow (the theorem's shadow flags are the Spec's shadowFlags, which the driver's oracle uses); "
             "getMount_last / getMount_recovers (GetMount(mp) returns the entry of the last mount at mp; with pairwise distinct mountpoints every mount is found); "
             "layer_recognised, layerMount_wf, layer_recognised_any_base (a mount at base/layers/x/build is found at exactly that path for every byte string base); "
